@@ -196,6 +196,8 @@ def expand(op):
     lay = _lay(op)
     _, reads = _mode(op)
     dt = _dt(op)
+    if op[0] == "adapt":
+        return _adapt_ops(op)
     if op[0] == "to_units":
         return [op[:4] + [_cells(op[4], 0, dt)[0][0]]]
     if op[0] not in ("prepare", "link"):
@@ -207,10 +209,34 @@ def expand(op):
 
 def answers(op, got):
     """the observed answers aligned with expand(op)"""
-    n = len(expand(op))
+    sops = expand(op)
+    if op[0] == "adapt" and got[0] == "bool":
+        # the connect phase either passes or is refused as a whole: every check but the last one is taken
+        # as passed, the last one carries the observed verdict
+        return [["bool", True]] * (len(sops) - 1) + [got]
     if got[0] == "multi":
         return got[1]
-    return [got] * n
+    return [got] * len(sops)
+
+
+def _adapt_ops(op):
+    """the unit checks of the connect phase of  Output(a) >> real adapter >> Input(b)  as scalar ops.
+    sum:  SumOverTime(per_time=True) asks upstream with units=None (no check there) and delivers
+          (a * s) reduced; the input checks  compatible_units(b, delivered).
+    hist: Histogram forwards the request (Output checks compatible_units(a, b)) and delivers counts
+          (dimensionless); the input checks  compatible_units(b, '')."""
+    _, kind, a, b = op
+    if kind == "sum":
+        return [["accsum", b, a]]
+    if not compat(a, b):
+        return [["accepts", a, b]]
+    return [["accepts", a, b], ["accepts", b, NAMES.index("")]]
+
+
+def _sum_dims(a):
+    d = list(DIMS[a])
+    d[_T] += 1
+    return d
 
 RULE = (
     "sessions of 40-400 operations (compatible_units / equivalent_units / pint.Unit identity / to_units with and "
@@ -219,7 +245,10 @@ RULE = (
     "degC/K/degF, percent/ppm/psu/radian/degree, dimensionless aliases, CF/UDUNITS spellings); sweep sessions cover "
     "every ordered pair of names in random order, focus sessions hammer 3-6 names (repeated and reversed queries), "
     "cache clears (API or dict.clear()) at random points; half of the prepare/link ops run on UniformGrid((3,3)) "
-    "under Mask.NONE / Mask.FLEX / a fixed mask array with plain and masked-array payloads, every unmasked cell judged; 30% of the to_units/prepare/link payloads have an integer dtype (int64/int32/int16, "
+    "under Mask.NONE / Mask.FLEX / a fixed mask array with plain and masked-array payloads, every unmasked cell judged; links through adapters that change the "
+    "unit dimension (an SDK adapter overriding _get_info that relabels the data with any catalogue unit: full value "
+    "semantics; SumOverTime(per_time=True) and Histogram: verdict of the connect phase) with consumers compatible / "
+    "incompatible with the DELIVERED units; 30% of the to_units/prepare/link payloads have an integer dtype (int64/int32/int16, "
     "plain and masked; the expected numbers are the exact rational conversion of the integers); 40% of the links are static (Output(static) >> Input(static), one publication) and "
     "links are read 1-4 times, every read judged; non-trivial = a session that repeats a pair after it was "
     "cached, contains a clear, and contains compatible-not-equivalent, equivalent-not-identical and incompatible pairs; "
@@ -290,6 +319,21 @@ def pure(op):
         return ["bool", CID[op[1]] == CID[op[2]]]
     if k == "accepts":
         return ["bool", compat(op[1], op[2])]
+    if k == "accsum":
+        return ["bool", DIMS[op[1]] == _sum_dims(op[2])]
+    if k == "alink":
+        kk, a, d, b, x = op[1], op[2], op[3], op[4], F(op[5])
+        if not compat(b, d):
+            return ["err", "MetaDataError"]
+        if kk is None:
+            st, sl1 = ("val", a, False, x), F(0)
+        else:
+            st, sl1 = _pure_prepare(kk, a, x), slack(kk, a, x)
+        if st[0] == "err":
+            return ["err", st[1]]
+        g = _pure_to_units(d, b, True, st[3])  # the adapter hands on the same numbers labelled d
+        sl2 = slack(d, b, st[3]) + sl1 * FAC[d] / FAC[b]
+        return ["link", CID[st[1]], st[2], st[3], sl1, CID[g[1]], st[2] or g[2], g[3], sl2]
     if k == "to_units":
         r = _pure_to_units(op[1], op[2], op[3], F(op[4]))
         return ["err", r[1]] if r[0] == "err" else ["val", CID[r[1]], r[2], r[3], slack(op[1], op[2], F(op[4]))]
@@ -346,6 +390,19 @@ def _fit_dt(dt, units, x, lay):
 def _mk_op(rng, kind, i, j, third=None):
     if kind in ("compat", "equiv", "same", "accepts"):
         return [kind, i, j]
+    if kind == "alink":  # i = units delivered by the adapter, j = units of the consumer
+        a = rng.randrange(NCAT)
+        k = None if rng.random() < 0.2 else _same_dim(rng, a) if rng.random() < 0.85 else rng.randrange(NCAT)
+        return ["alink", k, a, i, j, rng.choice(XS)]
+    if kind == "adapt":
+        # (temperature sources are left out: SumOverTime fails inside pint for offset units, and a summed
+        #  degC/h is a delta unit, which pint refuses to compare with degC/K/degF - see WITNESS_DELTA)
+        if rng.random() < 0.6 and DIMS[i][_K] == 0:
+            if rng.random() < 0.5:  # a consumer of the integrated dimension
+                c = [n for n in range(NCAT) if DIMS[n] == _sum_dims(i)]
+                j = rng.choice(c) if c else j
+            return ["adapt", "sum", i, j]
+        return ["adapt", "hist", i, j]
     dt = rng.choice([1, 1, 2, 3]) if rng.random() < 0.3 else 0  # integer-typed payloads
     x = rng.choice(INT_XS) if dt else rng.choice(XS)
     if kind == "to_units":
@@ -381,9 +438,10 @@ def _focus_session(rng, n):
         i, j, k = rng.choice(names), rng.choice(names), rng.choice(names)
         if ops and len(ops[-1]) > 2 and rng.random() < 0.25:  # reversed / repeated pair of the previous op
             p = ops[-1]
-            a, b = (p[2], p[3]) if p[0] == "link" else (p[1], p[2])
+            a, b = (p[2], p[3]) if p[0] in ("link", "adapt") else (p[3], p[4]) if p[0] == "alink" else (p[1], p[2])
             i, j = (b, a) if rng.random() < 0.6 else (a, b)
-        kind = rng.choice(OPK[:6]) if rng.random() < 0.95 else "same"
+        r = rng.random()
+        kind = "alink" if r < 0.08 else "adapt" if r < 0.12 else rng.choice(OPK[:6]) if r < 0.96 else "same"
         ops.append(_mk_op(rng, kind, i, j, k))
     return {"ops": ops}
 
@@ -398,8 +456,9 @@ def _sweep_sessions(rng, per):
             if rng.random() < 0.02:
                 ops.append(["clear", rng.randrange(2)])
             r = rng.random()
-            kind = ("compat" if r < 0.22 else "equiv" if r < 0.44 else "to_units" if r < 0.6 else
-                    "prepare" if r < 0.74 else "accepts" if r < 0.8 else "same" if r < 0.84 else "link")
+            kind = ("compat" if r < 0.2 else "equiv" if r < 0.4 else "to_units" if r < 0.55 else
+                    "prepare" if r < 0.67 else "accepts" if r < 0.72 else "same" if r < 0.75 else
+                    "alink" if r < 0.82 else "adapt" if r < 0.86 else "link")
             third = _same_dim(rng, i) if rng.random() < 0.8 else None
             ops.append(_mk_op(rng, kind, i, j, third))
             if rng.random() < 0.3:  # ask the other half of the memo entry as well
@@ -413,6 +472,16 @@ def _i(n):
 
 
 CORPUS = [
+    # seeded/C17_g: an adapter on the link changes the units; the consumer's units must be judged against the
+    # units the adapter DELIVERS (refused with a metadata error when the dimension differs, converted otherwise)
+    {"ops": [["alink", _i("kg"), _i("kg"), _i("kg m-2 s-1"), _i("kg m-2 s-1"), 2.5], ["alink", _i("kg"), _i("kg"), _i("kg m-2 s-1"), _i("kg"), 2.5],
+             ["alink", _i("g"), _i("kg"), _i("mm"), _i("m"), 1500.0], ["alink", None, _i("m"), _i("mm"), _i("kg"), 1.0],
+             ["alink", _i("mm/d"), _i("m/s"), _i("mm"), _i("mm/d"), 2.0], ["alink", _i("mm/d"), _i("m/s"), _i("degC"), _i("K"), 20.0],
+             ["alink", _i("m"), _i("m"), _i("Hz"), _i("s-1"), 2.5], ["alink", _i("s"), _i("m"), _i("m"), _i("m"), 1.0],
+             ["adapt", "sum", _i("mm/d"), _i("mm")], ["adapt", "sum", _i("mm/d"), _i("mm/d")], ["adapt", "sum", _i("m3/s"), _i("L")],
+             ["adapt", "sum", _i("W m-2"), _i("W m-2")], ["adapt", "sum", _i("1/s"), _i("%")], ["adapt", "sum", _i("m"), _i("s")],
+             ["adapt", "hist", _i("m"), _i("m")], ["adapt", "hist", _i("m"), _i("km")], ["adapt", "hist", _i("m"), _i("")],
+             ["adapt", "hist", _i("%"), _i("1")], ["adapt", "hist", _i("rad"), _i("degree")]]},
     # seeded/C17_e: INTEGER-typed data (plain and masked, int64/int32/int16) must be converted to the exact
     # (non-integer) numbers: 1500 m -> 1.5 km, 15 % -> 0.15, 20 degC -> 293.15 K; over links and through to_units
     {"ops": [["to_units", _i("m"), _i("km"), True, 1500, 1], ["to_units", _i("m"), _i("km"), False, 250, 2],
@@ -511,6 +580,29 @@ def _fr(x):
 
 def _frs(fr):
     return [str(fr.numerator), str(fr.denominator)]
+
+
+_RELABEL = None
+
+
+def _relabel_adapter(fm):
+    """SDK adapter that changes the units: asks upstream without units, delivers the same numbers labelled `units`"""
+    global _RELABEL
+    if _RELABEL is None:
+        class Relabel(fm.Adapter):
+            def __init__(self, units):
+                super().__init__()
+                self.units = fm.UNITS.Unit(units)
+
+            def _get_data(self, time, target):
+                return fm.UNITS.Quantity(self.pull_data(time, target).magnitude, self.units)
+
+            def _get_info(self, info):
+                in_info = self.exchange_info(info.copy_with(units=None))
+                return in_info.copy_with(units=self.units)
+
+        _RELABEL = Relabel
+    return _RELABEL
 
 
 def _layout(fm, np, vals, lay, dt=0):
@@ -618,6 +710,35 @@ def run_impl(case):
                     cg = _cellvals(np, got.magnitude, lay)
                     per += [["link", _label(st.units), _frs(cs[i]), _label(got.units), _frs(cg[i])] for i in judged]
                 res.append(per[0] if len(per) == 1 and lay == 0 and reads == 1 else ["multi", per])
+            elif k == "alink":
+                kk, a, d, b, x = op[1], op[2], op[3], op[4], op[5]
+                out = fm.Output(name="Out")
+                inp = fm.Input(name="In")
+                out >> _relabel_adapter(fm)(NAMES[d]) >> inp
+                inp.ping()
+                out.push_info(fm.Info(time=t0, grid=fm.NoGrid(), units=NAMES[a]))
+                inp.exchange_info(fm.Info(time=t0, grid=fm.NoGrid(), units=NAMES[b]))
+                out.push_data(np.array(x) if kk is None else Qn(np.array(x), fm.UNITS.Unit(NAMES[kk])), t0)
+                st = out.data[-1][1]
+                got = inp.pull_data(t0)
+                res.append(["link", _label(st.units), _frs(_fr(st.magnitude)), _label(got.units), _frs(_fr(got.magnitude))])
+            elif k == "adapt":
+                _, kind, a, b = op
+                out = fm.Output(name="Out")
+                inp = fm.Input(name="In")
+                if kind == "sum":
+                    out >> fm.adapters.SumOverTime(per_time=True) >> inp
+                    gout, gin = fm.NoGrid(), fm.NoGrid()
+                else:
+                    out >> fm.adapters.Histogram(lower=0.0, upper=3.0, bins=3) >> inp
+                    gout, gin = fm.UniformGrid((3, 3)), None
+                inp.ping()
+                out.push_info(fm.Info(time=t0, grid=gout, units=NAMES[a]))
+                try:
+                    inp.exchange_info(fm.Info(time=t0, grid=gin, units=NAMES[b]))
+                    res.append(["bool", True])
+                except fm.FinamMetaDataError:
+                    res.append(["bool", False])
             else:
                 raise ValueError(k)
         except Exception as e:  # noqa  (also a unit name pint cannot parse: an answer the model cannot give)
@@ -644,6 +765,12 @@ def _coq_op(op):
         return C("Same", _U(op[1]), _U(op[2]))
     if k == "accepts":
         return C("Accepts", _U(op[1]), _U(op[2]))
+    if k == "accsum":  # the unit SumOverTime delivers for source a: dimension of a * s (fresh identity 1000 + cid a)
+        a = op[2]
+        d = "[" + ";".join(str(e) for e in _sum_dims(a)) + "]%Z"
+        return C("Accepts", _U(op[1]), C("mkE", N(1000 + CID[a]), C("mkU", d, Q(FAC[a]), Q(0))))
+    if k == "alink":
+        return C("ALink", NONE if op[1] is None else Some(_U(op[1])), _U(op[2]), _U(op[3]), _U(op[4]), Q(F(op[5])))
     if k == "to_units":
         return C("ToUnits", _U(op[1]), _U(op[2]), B(op[3]), Q(F(op[4])))
     if k == "prepare":
@@ -735,7 +862,8 @@ def _show(op):
     k = o[0]
     if k == "clear":
         return "clear"
-    idx = {"compat": (1, 2), "equiv": (1, 2), "same": (1, 2), "accepts": (1, 2), "to_units": (1, 2), "prepare": (1, 2), "link": (1, 2, 3)}[k]
+    idx = {"compat": (1, 2), "equiv": (1, 2), "same": (1, 2), "accepts": (1, 2), "to_units": (1, 2), "prepare": (1, 2), "link": (1, 2, 3),
+           "alink": (1, 2, 3, 4), "adapt": (2, 3), "accsum": (1, 2)}[k]
     for p in idx:
         o[p] = None if o[p] is None else NAMES[o[p]]
     return o
@@ -766,6 +894,10 @@ def _pairs(op):
         return []
     if k == "link":
         return [(op[2], op[3])] + ([(op[1], op[2])] if op[1] is not None else [])
+    if k == "alink":
+        return [(op[4], op[3])] + ([(op[1], op[2])] if op[1] is not None else [])
+    if k == "adapt":
+        return [(op[2], op[3])]
     return [(op[1], op[2])]
 
 
